@@ -214,8 +214,8 @@ PROPS["C10"] = {
     "gens": ["lexer"],
     "streams": [{"name": "ring", "quick": 700, "thorough": 30000}],
     "shrink": False,
-    "claim": "Lean theorems tokens_ok (every ring size below 2^32, every position: range, strictly increasing in address order, first = minimum token), local_one_row, peers_rows, projection shape (row width = advertised columns for every selector list: order, aliases, *, count, now()), self_not_a_peer over Model/Ring + Model/Select; tied to proxy.go/parser by the ring e2e stream: generated configurations (0-16 IPv4/IPv6 peers, with/without self, DCs, explicit/partial tokens, DSE/non-DSE) x selector lists, rows decoded under the advertised types and compared cell by cell with the model; host ids checked against an independent version-3-UUID oracle",
-    "note": "partial on two points: the cross-proxy agreement theorem (same node set from every proxy of a shared list) is not proved yet - it is exercised by the stream through the address-order/tokens comparison; MD5 is an uninterpreted function in the model (host-id determinism and version/variant bits are checked by the oracle, not proved). Trusted: Lean kernel, hand-written models, scanner tables, e2e harness; DNS resolution of non-literal addresses is not covered",
+    "claim": "Lean theorems proxies_agree (two proxies given the same set of peer addresses - in any order - build the same sequence of (address, token) pairs: the address order is a strict total order, insertion by it sorts, a sorted list is determined by its members), tokens_ok (every ring size below 2^32, every position: range, strictly increasing in address order, first = minimum token), local_one_row, peers_rows, projection shape (row width = advertised columns for every selector list: order, aliases, *, count, now()), self_not_a_peer over Model/Ring + Model/Select; tied to proxy.go/parser by the ring e2e stream: generated configurations (0-16 IPv4/IPv6 peers, with/without self, DCs, explicit/partial tokens, DSE/non-DSE) x selector lists, rows decoded under the advertised types and compared cell by cell with the model; host ids checked against an independent version-3-UUID oracle",
+    "note": "partial: MD5 is an uninterpreted function in the model (host-id determinism and version/variant bits are checked by the oracle, not proved). Trusted: Lean kernel, hand-written models, scanner tables, e2e harness; DNS resolution of non-literal addresses is not covered",
     "rule": "ring: per case a proxy configuration (rpc-address or none, data center or the cluster's, own tokens or computed, 0-16 peers drawn from 16 IPv4/IPv6 addresses incl. the proxy's own entry, peer DCs/tokens, peers without rpc-address / tokens) and a SELECT on system.local / system.peers / peers_v2 / schema_* (13+9 selector lists, table spelled lower/upper/quoted); compared: refusal class, column metadata, row count, every decoded cell; distinct = distinct (configuration, query)",
     "trusted_base": [KERNEL, DRIVER, HARNESS, "Model/Ring.lean hand-written", "Gen/LexTables.lean regenerated"],
     "assumptions": ["peer addresses are distinct IP literals", "fewer than 2^32 peers"],
